@@ -4,7 +4,7 @@
    `moved`, `wf`, `qcoverb`, `seen_*`, `involved_open`, `idx*_ok` are defined in coq/model/M_MigrateSpec.v. *)
 From Coq Require Import ZArith List Bool.
 From FxV Require Import gen.Gen_C14 model.M_Migrate model.M_MigrateSpec model.M_MigrateCorr model.M_MigrateFollow
-  proofs.P_MigrateMature proofs.P_MigrateHist proofs.P_Migrate proofs.P_MigrateFollow.
+  proofs.P_MigrateMature proofs.P_MigrateHist proofs.P_Migrate proofs.P_MigrateFollow proofs.P_MigrateFollowR.
 Import ListNotations.
 Open Scope Z_scope.
 
@@ -52,33 +52,34 @@ Proof. exact endblock_pays. Qed.
 Print Assumptions C14_endblock_pays.
 
 (* "afterwards the target can withdraw, undelegate ... as the source could have".
-   Follow-up transactions (coq/model/M_MigrateFollow.v): delegate, undelegate, withdraw at the level of the
-   delegator-keyed records; everything computed on the validator side (rewards, new starting info, shares <->
+   Follow-up transactions (coq/model/M_MigrateFollow.v): delegate, undelegate, withdraw, redelegate at the level of
+   the delegator-keyed records; everything computed on the validator side (rewards, new starting info, shares <->
    tokens, completion time, unbonding id) is the answer of an arbitrary environment (env, ask, env_next) to a
-   query that contains the delegator's records but not its address.  `sim from to s s'` (M_MigrateSpec.v):
-   s' is s with the source's balances, delegations, starting infos, unbonding records and queue pairs under the
-   target's name, both well-formed and covered.
+   query that contains the delegator's records but not its address.  `sim2 from to s s'` (M_MigrateSpec.v):
+   s' is s with the source's balances, delegations, starting infos, unbonding records, redelegations, the
+   by-destination redelegation index and the queue pairs/triplets under the target's name, both well-formed and
+   covered.
    One step: whatever is accepted for an actor (the source or any third party) in the world WITHOUT migration is
    accepted for the renamed actor in the migrated world, with the same environment, and the worlds stay related. *)
 Theorem C14_followup_step : forall (env : Type) (ask : env -> query -> vans) (env_next : env -> query -> env)
     from to, from <> to -> forall e s s' o e1 t,
   pool_nb (cfg s) <> from -> pool_nb (cfg s) <> to ->
-  sim from to s s' -> factor o <> to ->
+  sim2 from to s s' -> factor o <> to ->
   fstep env ask env_next e s o = Ok (e1, t) ->
-  exists t', fstep env ask env_next e s' (ren_fop from to o) = Ok (e1, t') /\ sim from to t t'.
-Proof. exact sim_step. Qed.
+  exists t', fstep env ask env_next e s' (ren_fop from to o) = Ok (e1, t') /\ sim2 from to t t'.
+Proof. exact sim2_step. Qed.
 Print Assumptions C14_followup_step.
 
 (* every finite sequence of follow-ups commutes with the migration *)
 Theorem C14_followups_commute : forall (sigT : Type) (recover : Z -> Z -> sigT -> option Z)
     (env : Type) (ask : env -> query -> vans) (env_next : env -> query -> env)
     s from to sg s' e ops e1 t,
-  wf s -> qcoverb s = true -> balposb s = true ->
+  wf s -> qcoverb s = true -> balposb s = true -> idx36_ok s ->
   pool_nb (cfg s) <> from -> pool_nb (cfg s) <> to ->
   migrate_tx sigT recover s from to sg = Ok s' ->
   (forall o, In o ops -> factor o <> to) ->
   fruns env ask env_next e s ops = Ok (e1, t) ->
-  exists t', fruns env ask env_next e s' (map (ren_fop from to) ops) = Ok (e1, t') /\ sim from to t t'.
+  exists t', fruns env ask env_next e s' (map (ren_fop from to) ops) = Ok (e1, t') /\ sim2 from to t t'.
 Proof. exact followups_commute. Qed.
 Print Assumptions C14_followups_commute.
 
@@ -99,13 +100,15 @@ Theorem C14_followups_nonvacuous :
   let s := ex_init in let s' := ex_after in
   exists t t', fruns unit ex_ask ex_next tt s ex_ops = Ok (tt, t) /\
                fruns unit ex_ask ex_next tt s' (map (ren_fop 1 5) ex_ops) = Ok (tt, t') /\
-  del_of t 1 13 = Some {| d_del := 1; d_val := 13; d_shares := 550 |} /\
-  del_of t' 5 13 = Some {| d_del := 5; d_val := 13; d_shares := 550 |} /\ del_of t' 1 13 = None /\
-  option_map (fun u => length (u_entries u)) (ubd_of t 1 13) = Some 3%nat /\
+  del_of t 1 13 = Some {| d_del := 1; d_val := 13; d_shares := 450 |} /\
+  del_of t' 5 13 = Some {| d_del := 5; d_val := 13; d_shares := 450 |} /\ del_of t' 1 13 = None /\
+  del_of t' 5 14 = Some {| d_del := 5; d_val := 14; d_shares := 100 |} /\
+  option_map (fun r => length (r_entries r)) (red_of t 1 13 14) = Some 1%nat /\
+  option_map (fun r => length (r_entries r)) (red_of t' 5 13 14) = Some 1%nat /\ red_of t' 1 13 14 = None /\
   option_map (fun u => length (u_entries u)) (ubd_of t' 5 13) = Some 3%nat /\
   del_of t 9 13 = None /\ del_of t' 9 13 = None /\
-  bal_of t 1 0 = 5000 + 7 + 7 + 7 - 50 /\ bal_of t' 5 0 = 5003 + 7 + 7 + 7 - 50 /\ bal_of t' 1 0 = 0 /\
-  ubd_slice t 1010 = [(1, 13); (9, 13)] /\ ubd_slice t' 1010 = [(5, 13); (9, 13)].
+  bal_of t 1 0 = 5000 + 7 + 7 + 7 + 7 - 50 /\ bal_of t' 5 0 = 5003 + 7 + 7 + 7 + 7 - 50 /\ bal_of t' 1 0 = 0 /\
+  red_slice t' 1010 = [(5, (13, 14))] /\ receiving t' 5 14 = true /\ receiving t 1 14 = true.
 Proof. exact followups_example. Qed.
 Print Assumptions C14_followups_nonvacuous.
 
